@@ -4,6 +4,7 @@ advances a virtual clock instead of blocking.  Tie policy among equal deadlines:
 from __future__ import annotations
 
 import asyncio
+import math
 import selectors
 
 
@@ -28,7 +29,9 @@ class _NullSelector(selectors.BaseSelector):
             raise RuntimeError("virtual loop deadlock: no timers and nothing ready")
         if timeout > 0:
             # advance, then snap to the 2^-20 s grid (timer deadlines carry a tiny tie-breaking offset)
-            self._loop._vtime = round((self._loop._vtime + timeout) * 1048576.0) / 1048576.0
+            x = (self._loop._vtime + timeout) * 1048576.0
+            # ceil mode: a timer never fires before its deadline (the 1e-3 tick allowance absorbs the tie-breaking offsets)
+            self._loop._vtime = (math.ceil(x - 1e-3) if self._loop._ceil else round(x)) / 1048576.0
             self.idle_spins = 0
         else:
             self.idle_spins += 1
@@ -46,9 +49,10 @@ class _NullSelector(selectors.BaseSelector):
 class VLoop(asyncio.SelectorEventLoop):
     """fifo ties (heap order of (when, insertion)); lifo=True: later-scheduled timers of equal deadline fire first."""
 
-    def __init__(self, lifo: bool = False):
+    def __init__(self, lifo: bool = False, ceil: bool = False):
         self._vtime = 0.0
         self._lifo = lifo
+        self._ceil = ceil
         self._n = 0
         super().__init__(selector=_NullSelector(self))
         self._clock_resolution = 1e-6   # > half a grid step (2^-21 s): a deadline snapped downwards is still due
